@@ -147,7 +147,8 @@ CLAIMS = {
         text="Decides: every static sample passes clip(., 0, None), a trainable delay is min + alpha (max - min) with asserted 0 <= min < max and clipped alpha; "
              "sample splits the stored key once, keeps one half and feeds the other to exactly one sampler, reset stores the given key; sample / reset / quantile "
              "/ mean / pdf have no outside effect; Deterministic.quantile = mean, Normal.quantile = ndtri(q) scale + loc, trainable = min + alpha (max - min), "
-             "mixtures delegate to the grid routine on their own distribution, unknown distributions raise; default expected delay = quantile(0.99), asserted "
+             "mixtures delegate to the grid routine on their own distribution (whose structure is checked: CDF evaluated on the grid the result indexes, "
+             "first grid point with cdf > p, weighted component fallback, span check raises), unknown distributions raise; default expected delay = quantile(0.99), asserted "
              "non-negative; zero-spread data is exported as Deterministic(mean), otherwise a mixture with normalised weights and rescaled components. "
              "Not decided: the mixture grid quantile's accuracy, fitted values.",
         ref="§5 C15"),
@@ -156,7 +157,8 @@ CLAIMS = {
         text="Decides: Denormalize uses offset (min+max)/2 and scale (max-min)/2 and normalize(denormalize(x)) == x, denormalize(normalize(y)) == y hold as identities "
              "of rational normal forms, -1 -> min, +1 -> max; Chain.apply folds first-to-last and Chain.inv folds inv over the reversed members; Exponential maps "
              "through exp / log; Identity returns its argument; Shared writes replace_fn / inverse_fn of the params at `where`; Extend takes the base leaf exactly "
-             "where the supplied leaf is None. Not decided: pytree surgery of equinox, user lambdas, float rounding.",
+             "where the supplied leaf is None, tree_extend flattens the partial tree against and rebuilds it with the template's tree definition, filter keeps the "
+             "mask-selected leaves in the mask's structure, the mask marks the non-None leaves. Not decided: the jax / equinox pytree primitives, user lambdas, float rounding.",
         ref="§5 C17"),
     "C18": dict(
         technique="sanitiser must-pass-through (NaN -> inf) on every use of the raw losses, clip must-pass-through with role check, ordering-abstraction table of the best-so-far update",
